@@ -127,6 +127,23 @@ def run(rep, tier, rng):
             for _ in range(1 + rr.below(3)):
                 m = gen_serde.mutate_string(m, rr) if rr.chance(1, 4) else gen_serde.mutate(m, rr)
             inputs.append((k, m.hex()))
+    # non-canonical field elements written over every 8-byte field of the data containers (aligned from
+    # the start after the possible length prefixes, and from the end)
+    per_kind = collections.Counter()
+    M = 2**64 - 2**32 + 1
+    for k, h in items:
+        if k not in ("si", "so", "kern", "pinfo") or per_kind[k] >= (12 if tier == "quick" else 200):
+            continue
+        b = bytes.fromhex(h)
+        if len(b) < 8:
+            continue
+        per_kind[k] += 1
+        offs = set()
+        for start in (0, 1, 2, 4, 8, len(b) % 8):
+            offs.update(range(start, len(b) - 7, 8))
+        for o in sorted(offs):
+            for v in (M, M + 5, 2**64 - 1):
+                inputs.append((k, (b[:o] + v.to_bytes(8, "little") + b[o + 8:]).hex()))
     # every length field at its largest value, and one step around it
     for k, b in gen_serde.boundary_encodings():
         inputs.append((k, b.hex()))
